@@ -36,6 +36,7 @@ type Step struct {
 
 type Script struct {
 	Trace   int
+	Mode    string // "" = decision
 	Default bool
 	Steps   []Step
 }
